@@ -320,7 +320,7 @@ def declare(spec):
                   "$seq[BlockedQ]", "len_blocked_queue"],
         allocates=True, raises=[("ValueError", "True")],
         ensures=[
-            ("C12:interrupted-customer-restarted-first-and-now",
+            ("C02+C12:interrupted-customer-restarted-first-and-now",
              "old(self.interrupted_individuals[0]).service_start_date == self.now and ref_eq(srvr.cust, old(self.interrupted_individuals[0])) "
              "and srvr.busy and ref_eq(old(self.interrupted_individuals[0]).server, srvr) and not old(self.interrupted_individuals[0]).interrupted"),
             ("C02:service-end-is-start-plus-service-time",
@@ -330,7 +330,7 @@ def declare(spec):
              "implies(old(self.interrupted_individuals[0].service_time) == 'resume', old(self.interrupted_individuals[0]).service_time == old(self.interrupted_individuals[0].time_left)) and "
              "implies(old(self.interrupted_individuals[0].service_time) == 'restart', old(self.interrupted_individuals[0]).service_time == old(self.interrupted_individuals[0].original_service_time))"),
             ("C02+C10:restarted-service-time-is-non-negative", "old(self.interrupted_individuals[0]).service_time >= 0"),
-            ("C12:removed-from-the-interrupted-list",
+            ("C09+C12:removed-from-the-interrupted-list-and-counted-in-service",
              "S(self.interrupted_individuals) == remove_at(old(S(self.interrupted_individuals)), 0) and "
              "self.number_interrupted_individuals == old(self.number_interrupted_individuals) - 1 and self.number_in_service == old(self.number_in_service) + 1"),
             ("C07:unblocked-customer-leaves-the-blocked-queue",
@@ -629,7 +629,7 @@ def declare(spec):
              "and node_to_receive_from.number_in_service == old(node_to_receive_from.number_in_service)"),
             ("C07:the-customer-received-is-the-one-named-by-the-head-entry",
              "individual_to_receive.id_number == old(self.blocked_queue[0][1]) and ref_eq(node_to_receive_from, old(self.simulation.nodes[self.blocked_queue[0][0]]))"),
-            ("C12:an-interrupted-blocked-customer-leaves-the-interrupted-list",
+            ("C04+C05+C12:an-interrupted-blocked-customer-leaves-the-interrupted-list",
              "implies(old(individual_to_receive.interrupted), not individual_to_receive.interrupted "
              "and node_to_receive_from.number_interrupted_individuals == old(node_to_receive_from.number_interrupted_individuals) - 1 "
              "and S(node_to_receive_from.interrupted_individuals) == remove1(old(S(node_to_receive_from.interrupted_individuals)), individual_to_receive) "
